@@ -1,4 +1,463 @@
-(* Case runner and spec checker (T3) for C03 — stub. *)
-From WI Require Import Lib.Base Lib.Info Model.Cert.
-Definition run_C03 (op : bytes) (input : arg) : arg := AL [].
-Definition check_C03 (op : bytes) (input impl : arg) : arg := AL [].
+(* Case runner and spec checker (T3) for C03. *)
+From WI Require Import Lib.Base Lib.Info Lib.Strings Model.Cert.
+Open Scope N_scope.
+
+(* ---------- decoding the harness's s-expressions ---------- *)
+Definition oid_of_arg (a : arg) : oid := map arg_N (arg_list a).
+Definition opt_of_arg {A} (f : arg -> A) (a : arg) : option A :=
+  match a with AL [x] => Some (f x) | _ => None end.
+
+Definition spki_of_arg (a : arg) : spki :=
+  match a with
+  | AL [AZ 0%Z; AB n] => SRsa n
+  | AL [AZ 4%Z; AB p] => SDsa p
+  | AL [AZ 1%Z; o] => SEc (oid_of_arg o)
+  | AL [AZ 3%Z; o] => SBare (oid_of_arg o)
+  | _ => SBad
+  end.
+Definition arg_of_oid (o : oid) : arg := AL (map (fun n => AZ (Z.of_N n)) o).
+Definition arg_of_spki (k : spki) : arg :=
+  match k with
+  | SRsa n => AL [AZ 0; AB n]
+  | SDsa p => AL [AZ 4; AB p]
+  | SEc o => AL [AZ 1; arg_of_oid o]
+  | SBare o => AL [AZ 3; arg_of_oid o]
+  | SBad => AL [AZ 9]
+  end.
+
+Definition basic_of_arg (a : arg) : bool * option Z :=
+  match a with
+  | AL [ca; n] => (arg_bool ca, Some (arg_Z n))
+  | _ => (arg_bool (arg_nth 0 a), None)
+  end.
+Definition gn_of_arg (a : arg) : general_name := GN (arg_N (arg_nth 0 a)) (arg_bytes (arg_nth 1 a)).
+Definition sig_of_arg (a : arg) : sigalg :=
+  match a with
+  | AL [AZ 0%Z; id] => SigKnown (arg_N id)
+  | _ => SigUnknown (oid_of_arg (arg_nth 1 a))
+  end.
+
+Definition enc_of_arg (a : arg) : enc_cert :=
+  {| e_version := arg_N (arg_nth 0 a);
+     e_serial := be_to_N (arg_bytes (arg_nth 1 a));
+     e_subject := arg_bytes (arg_nth 2 a);
+     e_issuer := arg_bytes (arg_nth 3 a);
+     e_not_before := arg_Z (arg_nth 4 a);
+     e_not_after := arg_Z (arg_nth 5 a);
+     e_spki := spki_of_arg (arg_nth 6 a);
+     e_basic := opt_of_arg basic_of_arg (arg_nth 7 a);
+     e_key_usage := opt_of_arg (fun x => map arg_bool (arg_list x)) (arg_nth 8 a);
+     e_ekus := opt_of_arg (fun x => map oid_of_arg (arg_list x)) (arg_nth 9 a);
+     e_sans := opt_of_arg (fun x => map gn_of_arg (arg_list x)) (arg_nth 10 a);
+     e_ski := opt_of_arg arg_bytes (arg_nth 11 a);
+     e_aki := opt_of_arg arg_bytes (arg_nth 12 a);
+     e_sig := sig_of_arg (arg_nth 13 a) |}.
+
+Definition serial_of_arg (a : arg) : Z :=
+  let m := Z.of_N (be_to_N (arg_bytes (arg_nth 1 a))) in
+  if arg_bool (arg_nth 0 a) then (- m)%Z else m.
+Definition arg_of_serial (z : Z) : arg :=
+  let m := Z.to_N (Z.abs z) in
+  AL [AZ (if (z <? 0)%Z then 1 else 0); AB (N_to_be (N.to_nat ((N.size m + 7) / 8)) m)].
+
+Definition fields_of_arg (a : arg) : cert_fields :=
+  {| f_version := arg_Z (arg_nth 0 a);
+     f_bc_valid := arg_bool (arg_nth 1 a);
+     f_is_ca := arg_bool (arg_nth 2 a);
+     f_max_path_len := arg_Z (arg_nth 3 a);
+     f_max_path_len_zero := arg_bool (arg_nth 4 a);
+     f_serial := serial_of_arg (arg_nth 5 a);
+     f_spki := spki_of_arg (arg_nth 6 a);
+     f_subject := arg_bytes (arg_nth 7 a);
+     f_issuer := arg_bytes (arg_nth 8 a);
+     f_ski := arg_bytes (arg_nth 9 a);
+     f_aki := arg_bytes (arg_nth 10 a);
+     f_not_before := arg_Z (arg_nth 11 a);
+     f_not_after := arg_Z (arg_nth 12 a);
+     f_key_usage := arg_N (arg_nth 13 a);
+     f_ext_key_usage := map arg_N (arg_list (arg_nth 14 a));
+     f_unknown_eku := map oid_of_arg (arg_list (arg_nth 15 a));
+     f_dns := map arg_bytes (arg_list (arg_nth 16 a));
+     f_ips := map arg_bytes (arg_list (arg_nth 17 a));
+     f_uris := map arg_bytes (arg_list (arg_nth 18 a));
+     f_emails := map arg_bytes (arg_list (arg_nth 19 a));
+     f_sigalg := arg_N (arg_nth 20 a);
+     f_sig_oid := oid_of_arg (arg_nth 21 a) |}.
+
+Definition bool_arg (b : bool) : arg := AZ (if b then 1 else 0).
+Definition arg_of_fields (f : cert_fields) : arg :=
+  AL [AZ (f_version f); bool_arg (f_bc_valid f); bool_arg (f_is_ca f); AZ (f_max_path_len f);
+      bool_arg (f_max_path_len_zero f); arg_of_serial (f_serial f); arg_of_spki (f_spki f);
+      AB (f_subject f); AB (f_issuer f); AB (f_ski f); AB (f_aki f);
+      AZ (f_not_before f); AZ (f_not_after f); AZ (Z.of_N (f_key_usage f));
+      AL (map (fun n => AZ (Z.of_N n)) (f_ext_key_usage f)); AL (map arg_of_oid (f_unknown_eku f));
+      AL (map AB (f_dns f)); AL (map AB (f_ips f)); AL (map AB (f_uris f)); AL (map AB (f_emails f));
+      AZ (Z.of_N (f_sigalg f)); arg_of_oid (f_sig_oid f)].
+
+Definition lib_of_obs (a : arg) : result cert_fields :=
+  match a with
+  | AL [AZ 0%Z; f] => Ok (fields_of_arg f)
+  | AL [AZ 2%Z] => Panic "oracle"
+  | _ => Err "x509: rejected"
+  end.
+
+Definition extras_of_arg (a : arg) : list (bytes * Z) :=
+  map (fun x => (arg_bytes (arg_nth 0 x), arg_Z (arg_nth 1 x))) (arg_list a).
+
+Definition run_C03 (op : bytes) (input : arg) : arg :=
+  if bytes_eqb op (bs "ku") then
+    AL (map AB (key_usages (arg_N (arg_nth 0 input))))
+  else if bytes_eqb op (bs "eku") then
+    AL (map AB (x509_ekus (map arg_N (arg_list (arg_nth 0 input))) (map oid_of_arg (arg_list (arg_nth 1 input)))))
+  else if bytes_eqb op (bs "x509") then
+    AL [AZ 0; arg_of_fields (x509_spec (enc_of_arg (arg_nth 0 input)))]
+  else if bytes_eqb op (bs "describe") then
+    AL [AZ 0; arg_of_info (describe (fields_of_arg (arg_nth 0 input)))]
+  else if bytes_eqb op (bs "parse") then
+    obs_result arg_of_info (parse_certificate (lib_of_obs (arg_nth 0 input)))
+  else if bytes_eqb op (bs "inspect") then
+    let kind := arg_bytes (arg_nth 0 input) in
+    let certs := map (fun e => describe (x509_spec (enc_of_arg e))) (arg_list (arg_nth 1 input)) in
+    if bytes_eqb kind (bs "jks") then
+      AL [AZ 0; arg_of_info (present_jks (extras_of_arg (arg_nth 2 input)) certs)]
+    else obs_result arg_of_info (present_pem certs)
+  else AL [].
+
+(* ====================================================================================
+   The property, evaluated on what the implementation printed, from the ENCODED content
+   alone.  Independent of Model/Cert.v: own tables (typed from RFC 5280 / RFC 3279 / RFC 5480 /
+   RFC 5758 / RFC 8410 / RFC 5952), own calendar algorithm, own address formatter.
+   ==================================================================================== *)
+
+(* RFC 5280 4.2.1.3 KeyUsage bits 0..8 (labels as the tool prints them: nonRepudiation is
+   "contentCommitment", keyCertSign is "certSign") *)
+Definition spec_key_usages : list bytes := [
+  bs "digitalSignature"; bs "contentCommitment"; bs "keyEncipherment"; bs "dataEncipherment";
+  bs "keyAgreement"; bs "certSign"; bs "cRLSign"; bs "encipherOnly"; bs "decipherOnly"].
+
+(* RFC 5280 4.2.1.12 and the vendor usages *)
+Definition spec_ekus : list (list N * bytes) := [
+  ([2; 5; 29; 37; 0], bs "any");
+  ([1; 3; 6; 1; 5; 5; 7; 3; 1], bs "serverAuth");
+  ([1; 3; 6; 1; 5; 5; 7; 3; 2], bs "clientAuth");
+  ([1; 3; 6; 1; 5; 5; 7; 3; 3], bs "codeSigning");
+  ([1; 3; 6; 1; 5; 5; 7; 3; 4], bs "emailProtection");
+  ([1; 3; 6; 1; 5; 5; 7; 3; 5], bs "ipsecEndSystem");
+  ([1; 3; 6; 1; 5; 5; 7; 3; 6], bs "ipsecTunnel");
+  ([1; 3; 6; 1; 5; 5; 7; 3; 7], bs "ipsecUser");
+  ([1; 3; 6; 1; 5; 5; 7; 3; 8], bs "timeStamping");
+  ([1; 3; 6; 1; 5; 5; 7; 3; 9], bs "OCSPSigning");
+  ([1; 3; 6; 1; 4; 1; 311; 10; 3; 3], bs "microsoftServerGatedCrypto");
+  ([2; 16; 840; 1; 113730; 4; 1], bs "netscapeServerGatedCrypto");
+  ([1; 3; 6; 1; 4; 1; 311; 2; 1; 22], bs "microsoftCommercialCodeSigning");
+  ([1; 3; 6; 1; 4; 1; 311; 61; 1; 1], bs "microsoftKernelCodeSigning")].
+
+(* signature algorithms by the library constant the harness used when encoding *)
+Definition spec_sigalgs : list (N * bytes) := [
+  (2, bs "MD5-RSA"); (3, bs "SHA1-RSA"); (4, bs "SHA256-RSA"); (5, bs "SHA384-RSA"); (6, bs "SHA512-RSA");
+  (7, bs "DSA-SHA1"); (8, bs "DSA-SHA256"); (9, bs "ECDSA-SHA1"); (10, bs "ECDSA-SHA256");
+  (11, bs "ECDSA-SHA384"); (12, bs "ECDSA-SHA512"); (13, bs "SHA256-RSAPSS"); (14, bs "SHA384-RSAPSS");
+  (15, bs "SHA512-RSAPSS"); (16, bs "Ed25519")].
+
+(* RFC 5480 named curves: the text shown must mention the curve *)
+Definition spec_curves : list (list N * bytes) := [
+  ([1; 3; 132; 0; 33], bs "secp224r1"); ([1; 2; 840; 10045; 3; 1; 7], bs "secp256r1");
+  ([1; 3; 132; 0; 34], bs "secp384r1"); ([1; 3; 132; 0; 35], bs "secp521r1")].
+(* RFC 8410 *)
+Definition spec_bare_keys : list (list N * (bytes * bytes)) := [
+  ([1; 3; 101; 112], (bs "EdDSA", bs "Ed25519")); ([1; 3; 101; 113], (bs "EdDSA", bs "Ed448"));
+  ([1; 3; 101; 110], (bs "ECDH", bs "X25519")); ([1; 3; 101; 111], (bs "ECDH", bs "X448"))].
+
+Fixpoint nlist_eqb (a b : list N) : bool :=
+  match a, b with
+  | [], [] => true
+  | x :: a', y :: b' => (x =? y) && nlist_eqb a' b'
+  | _, _ => false
+  end.
+Fixpoint spec_lookup {A} (t : list (list N * A)) (o : list N) : option A :=
+  match t with
+  | [] => None
+  | (o', v) :: r => if nlist_eqb o o' then Some v else spec_lookup r o
+  end.
+Fixpoint spec_lookup_N {A} (t : list (N * A)) (k : N) : option A :=
+  match t with
+  | [] => None
+  | (k', v) :: r => if k =? k' then Some v else spec_lookup_N r k
+  end.
+
+Definition spec_dotted (o : list N) : bytes := join [46] (map dec_of_N o).
+
+(* calendar: days since 1970-01-01 -> (y, m, d), by 400/100/4/1-year cycles counted from 0001-01-01 *)
+Definition spec_leap (y : Z) : bool :=
+  ((y mod 4 =? 0) && negb (y mod 100 =? 0) || (y mod 400 =? 0))%Z.
+Definition spec_month_len (y m : Z) : Z :=
+  (if (m =? 2) then (if spec_leap y then 29 else 28)
+   else if (m =? 4) || (m =? 6) || (m =? 9) || (m =? 11) then 30 else 31)%Z.
+Fixpoint spec_month_walk (months : list Z) (y doy : Z) : Z * Z :=
+  match months with
+  | [] => (12, doy + 1)%Z
+  | m :: r => if (doy <? spec_month_len y m)%Z then (m, doy + 1)%Z else spec_month_walk r y (doy - spec_month_len y m)%Z
+  end.
+Definition spec_ymd (days : Z) : Z * Z * Z :=
+  (let n := days + 719162 in
+   let q400 := n / 146097 in let r400 := n mod 146097 in
+   let q100 := Z.min 3 (r400 / 36524) in let r100 := r400 - q100 * 36524 in
+   let q4 := r100 / 1461 in let r4 := r100 mod 1461 in
+   let q1 := Z.min 3 (r4 / 365) in let r1 := r4 - q1 * 365 in
+   let y := 1 + 400 * q400 + 100 * q100 + 4 * q4 + q1 in
+   match spec_month_walk [1; 2; 3; 4; 5; 6; 7; 8; 9; 10; 11] y r1 with (m, d) => (y, m, d) end)%Z.
+Definition spec_pad (w : nat) (z : Z) : bytes := dec_pad w (Z.to_N z).
+Definition spec_date (sec : Z) : bytes :=
+  match spec_ymd (sec / 86400)%Z with
+  | (y, m, d) => spec_pad 4 y ++ [45] ++ spec_pad 2 m ++ [45] ++ spec_pad 2 d
+  end.
+
+(* addresses: RFC 5280 iPAddress = 4 octets (dotted decimal) or 16 octets (RFC 5952 text) *)
+Fixpoint spec_hex_fuel (fuel : nat) (x : N) (acc : bytes) : bytes :=
+  match fuel with
+  | O => acc
+  | S f => let d := x mod 16 in
+           let c := if d <? 10 then 48 + d else 87 + d in
+           if x / 16 =? 0 then c :: acc else spec_hex_fuel f (x / 16) (c :: acc)
+  end.
+Definition spec_hex (x : N) : bytes := spec_hex_fuel 8 x [].
+Fixpoint spec_groups (b : bytes) : list N :=
+  match b with
+  | h :: l :: r => (256 * h + l) :: spec_groups r
+  | _ => []
+  end.
+(* all maximal runs of zero groups as (start, length) *)
+Fixpoint spec_runs (i : nat) (cur : option (nat * nat)) (l : list N) : list (nat * nat) :=
+  match l with
+  | [] => match cur with Some c => [c] | None => [] end
+  | g :: r =>
+      if g =? 0 then
+        spec_runs (S i) (match cur with Some (s, n) => Some (s, S n) | None => Some (i, 1%nat) end) r
+      else (match cur with Some c => [c] | None => [] end) ++ spec_runs (S i) None r
+  end.
+(* longest, leftmost on ties, only runs of at least two groups *)
+Fixpoint spec_pick (best : option (nat * nat)) (l : list (nat * nat)) : option (nat * nat) :=
+  match l with
+  | [] => best
+  | (s, n) :: r =>
+      if Nat.ltb n 2 then spec_pick best r
+      else match best with
+           | Some (_, bn) => if Nat.ltb bn n then spec_pick (Some (s, n)) r else spec_pick best r
+           | None => spec_pick (Some (s, n)) r
+           end
+  end.
+Definition spec_v4 (b : bytes) : bytes := join [46] (map dec_of_N b).
+Definition spec_ip (b : bytes) : bytes :=
+  if Nat.eqb (length b) 4 then spec_v4 b
+  else
+    if bytes_eqb (firstn 12 b) [0; 0; 0; 0; 0; 0; 0; 0; 0; 0; 255; 255]
+    then bs "::ffff:" ++ spec_v4 (skipn 12 b)              (* RFC 5952 section 5: IPv4-mapped *)
+    else
+      let gs := spec_groups b in
+      match spec_pick None (spec_runs 0 None gs) with
+      | Some (s, n) => join [58] (map spec_hex (firstn s gs)) ++ [58; 58] ++ join [58] (map spec_hex (skipn (s + n) gs))
+      | None => join [58] (map spec_hex gs)
+      end.
+
+(* ---------- the expected view of one certificate ---------- *)
+Fixpoint spec_usage_names (names : list bytes) (bits : list bool) : list bytes :=
+  match names, bits with
+  | n :: nr, b :: br => (if b then [n] else []) ++ spec_usage_names nr br
+  | _, _ => []
+  end.
+Definition spec_eku_text (o : list N) : bytes :=
+  match spec_lookup spec_ekus o with Some n => n | None => spec_dotted o end.
+Definition spec_san_text (g : general_name) : list bytes :=
+  match g with
+  | GN t d => if (t =? 1) || (t =? 2) || (t =? 6) then [d] else if t =? 7 then [spec_ip d] else []
+  end.
+
+(* split on the two-byte separator ", " *)
+Fixpoint split_cs (cur : bytes) (l : bytes) : list bytes :=
+  match l with
+  | [] => [rev cur]
+  | 44 :: 32 :: r => rev cur :: split_cs [] r
+  | c :: r => split_cs (c :: cur) r
+  end.
+Definition tokens (v : bytes) : list bytes := match v with [] => [] | _ => split_cs [] v end.
+
+Fixpoint remove_one (x : bytes) (l : list bytes) : option (list bytes) :=
+  match l with
+  | [] => None
+  | y :: r => if bytes_eqb x y then Some r
+              else match remove_one x r with Some r' => Some (y :: r') | None => None end
+  end.
+Fixpoint perm_eqb (a b : list bytes) : bool :=
+  match a with
+  | [] => match b with [] => true | _ => false end
+  | x :: a' => match remove_one x b with Some b' => perm_eqb a' b' | None => false end
+  end.
+Definition list_bytes_eqb (a b : list bytes) : bool :=
+  Nat.eqb (length a) (length b) && forallb (fun p => bytes_eqb (fst p) (snd p)) (combine a b).
+
+Definition values_of (n : bytes) (attrs : list (bytes * bytes)) : list bytes :=
+  map snd (filter (fun a => bytes_eqb (fst a) n) attrs).
+
+(* one expectation: what must be printed under an attribute name *)
+Inductive expect :=
+| EExact (v : bytes)                  (* present exactly once with this value *)
+| EAbsent                             (* not present *)
+| EList (ordered : bool) (l : list bytes).   (* the listed items, no more, no fewer; when there are
+                                                none the attribute is absent or empty *)
+
+Definition check_expect (attrs : list (bytes * bytes)) (name : bytes) (e : expect) : list bytes :=
+  let vs := values_of name attrs in
+  match e with
+  | EExact v =>
+      match vs with
+      | [x] => if bytes_eqb x v then [] else [name ++ bs ": shown '" ++ x ++ bs "' but encoded '" ++ v ++ bs "'"]
+      | [] => [name ++ bs ": encoded '" ++ v ++ bs "' but not shown"]
+      | _ => [name ++ bs ": shown more than once"]
+      end
+  | EAbsent =>
+      match vs with
+      | [] => []
+      | x :: _ => [name ++ bs ": '" ++ x ++ bs "' shown but nothing is encoded"]
+      end
+  | EList ordered l =>
+      match vs, l with
+      | [], [] => []
+      | [[]], [] => []
+      | [x], _ =>
+          if (if ordered then list_bytes_eqb (tokens x) l else perm_eqb l (tokens x)) then []
+          else [name ++ bs ": shown '" ++ x ++ bs "' but encoded '" ++ join [44; 32] l ++ bs "'"]
+      | [], _ => [name ++ bs ": encoded '" ++ join [44; 32] l ++ bs "' but not shown"]
+      | _, _ => [name ++ bs ": shown more than once"]
+      end
+  end.
+
+Definition spec_role (c : enc_cert) : bytes :=
+  match e_basic c with
+  | Some (true, _) => bs " CA"
+  | Some (false, _) => bs " end-entity"
+  | None => []
+  end.
+
+Definition opt_hex (o : option bytes) : expect :=
+  match o with
+  | Some (x :: r) => EExact (hex_of false (x :: r))
+  | _ => EAbsent
+  end.
+
+Definition spec_expectations (c : enc_cert) : list (bytes * expect) := [
+  (bs "Serial", EExact (dec_of_N (e_serial c)));
+  (bs "Subject", EExact (e_subject c));
+  (bs "Issuer", EExact (e_issuer c));
+  (bs "Subject key id", opt_hex (e_ski c));
+  (bs "Authority key id", opt_hex (e_aki c));
+  (bs "Not before", EExact (spec_date (e_not_before c)));
+  (bs "Not after", EExact (spec_date (e_not_after c)));
+  (bs "Key usage", EList true (match e_key_usage c with Some bits => spec_usage_names spec_key_usages bits | None => [] end));
+  (bs "Extended key usage", EList false (match e_ekus c with Some l => map spec_eku_text l | None => [] end));
+  (bs "Max path length", match e_basic c with Some (true, Some n) => EExact (dec_of_Z n) | _ => EAbsent end);
+  (bs "SANs", match e_sans c with
+              | Some l => match flat_map spec_san_text l with [] => EAbsent | ts => EList false ts end
+              | None => EAbsent end);
+  (bs "Signature algorithm",
+     match e_sig c with
+     | SigKnown id => match spec_lookup_N spec_sigalgs id with Some n => EExact n | None => EExact (dec_of_N id) end
+     | SigUnknown o => EExact (spec_dotted o)
+     end)].
+
+(* number of significant bits of a big-endian magnitude: count the octets after the first
+   non-zero one, then the bits of that octet by repeated halving *)
+Fixpoint spec_byte_bits (fuel : nat) (h : N) : N :=
+  match fuel with
+  | O => 0
+  | S f => if h =? 0 then 0 else 1 + spec_byte_bits f (h / 2)
+  end.
+Fixpoint spec_bitlen (b : bytes) : N :=
+  match b with
+  | [] => 0
+  | h :: r => if h =? 0 then spec_bitlen r else spec_byte_bits 8 h + 8 * N.of_nat (length r)
+  end.
+
+Definition spec_key_expectations (k : spki) : option (list (bytes * expect)) :=
+  match k with
+  | SRsa n => Some [(bs "Algorithm", EExact (bs "RSA")); (bs "Size", EExact (dec_of_N (spec_bitlen n) ++ bs " bits"))]
+  | SDsa p => Some [(bs "Algorithm", EExact (bs "DSA")); (bs "Size", EExact (dec_of_N (spec_bitlen p) ++ bs " bits"))]
+  | SEc o => Some [(bs "Algorithm", EExact (bs "ECDSA"))]
+  | SBare o => match spec_lookup spec_bare_keys o with
+               | Some (a, cv) => Some [(bs "Algorithm", EExact a); (bs "Curve", EExact cv)]
+               | None => None      (* a key of an algorithm unknown to the tool: C02's subject *)
+               end
+  | SBad => None
+  end.
+
+Definition first_error (l : list bytes) : arg := match l with [] => AL [] | e :: _ => AB e end.
+
+Definition check_cert (c : enc_cert) (i : info) : list bytes :=
+  let attrs := i_attrs i in
+  let exps := spec_expectations c in
+  let want_desc := bs "x.509v" ++ dec_of_N (e_version c) ++ spec_role c ++ bs " certificate" in
+  (if bytes_eqb (i_desc i) want_desc then [] else [bs "description '" ++ i_desc i ++ bs "' but encoded '" ++ want_desc ++ bs "'"]) ++
+  flat_map (fun ne => check_expect attrs (fst ne) (snd ne)) exps ++
+  (* nothing invented: every attribute shown is one of the expected names *)
+  flat_map (fun a => if existsb (fun ne => bytes_eqb (fst ne) (fst a)) exps then []
+                     else [bs "attribute '" ++ fst a ++ bs "' has no source in the certificate"]) attrs ++
+  match i_children i with
+  | [k] =>
+      (if bytes_eqb (i_desc k) (bs "Public key") then [] else [bs "child is not the public key"]) ++
+      match spec_key_expectations (e_spki c) with
+      | Some es =>
+          flat_map (fun ne => check_expect (i_attrs k) (fst ne) (snd ne)) es ++
+          match e_spki c with
+          | SEc o =>
+              match values_of (bs "Curve") (i_attrs k), spec_lookup spec_curves o with
+              | [v], Some n => if contains n v then [] else [bs "Curve: shown '" ++ v ++ bs "' but encoded " ++ n]
+              | _, _ => [bs "Curve: not shown exactly once"]
+              end
+          | _ => []
+          end
+      | None => []
+      end
+  | _ => [bs "the subject public key is not described (exactly one child expected)"]
+  end.
+
+Fixpoint check_certs (cs : list enc_cert) (is : list info) : list bytes :=
+  match cs, is with
+  | [], [] => []
+  | c :: cr, i :: ir => check_cert c i ++ check_certs cr ir
+  | _, _ => [bs "number of certificates shown differs from the number encoded"]
+  end.
+
+Definition check_C03 (op : bytes) (input impl : arg) : arg :=
+  if bytes_eqb op (bs "ku") then
+    (* exactly the set bits among 0..8, in bit order *)
+    let m := arg_N (arg_nth 0 input) in
+    let want := spec_usage_names spec_key_usages (map (N.testbit m) [0; 1; 2; 3; 4; 5; 6; 7; 8]) in
+    if list_bytes_eqb (map arg_bytes (arg_list impl)) want then AL []
+    else AS "key usage names are not exactly the set bits in bit order"
+  else if bytes_eqb op (bs "eku") then
+    let unk := map oid_of_arg (arg_list (arg_nth 1 input)) in
+    let got := map arg_bytes (arg_list impl) in
+    if Nat.eqb (length got) (length (arg_list (arg_nth 0 input)) + length unk)
+       && forallb (fun o => existsb (bytes_eqb (spec_dotted o)) got) unk
+    then AL [] else AS "an extended key usage is dropped or an unknown OID is not shown dotted"
+  else if bytes_eqb op (bs "inspect") then
+    let kind := arg_bytes (arg_nth 0 input) in
+    let encs := map enc_of_arg (arg_list (arg_nth 1 input)) in
+    match impl with
+    | AL [AZ 0%Z; ia] =>
+        let i := info_of_arg ia in
+        if bytes_eqb kind (bs "jks") then
+          if Nat.eqb (length (i_children i)) (length encs) && forallb (fun e => Nat.eqb (length (i_children e)) 1) (i_children i)
+          then first_error (check_certs encs (flat_map i_children (i_children i)))
+          else AS "keystore entries do not each show their certificate"
+        else
+          match encs with
+          | [c] => first_error (check_cert c i)
+          | _ => first_error (check_certs encs (i_children i))
+          end
+    | _ => AS "inspection failed (error or panic)"
+    end
+  else
+    match impl with
+    | AL [AZ 2%Z] => AS "panic"
+    | _ => AL []
+    end.
